@@ -119,7 +119,7 @@ def _strip_ty(t):
 
 class Body:
     __slots__ = ("path", "kind", "parent", "file", "line", "argc", "locals", "blocks", "crate",
-                 "pub", "_loops", "_succ")
+                 "pub", "_loops", "_succ", "_pt")
 
     def __init__(self, d, crate):
         self.path = d["path"]
@@ -155,6 +155,46 @@ class Body:
                     s.append([])
             self._succ = s
         return self._succ
+
+    def pure_tail(self, bb):
+        """True when every path from bb to `return` consists of drop glue only (drops, gotos, drop-flag
+        updates, discriminant reads of values being dropped): forking on a switch there cannot matter."""
+        if not hasattr(self, "_pt"):
+            self._pt = {}
+        memo = self._pt
+        if bb in memo:
+            return memo[bb]
+        memo[bb] = False  # cycle guard
+        blk = self.blocks[bb]
+        ok = True
+        for st in blk["stmts"]:
+            if st["s"] != "assign":
+                ok = False
+                break
+            rv = st["rv"]
+            if st["p"]["p"] or st["p"]["l"] == 0:
+                ok = False
+                break
+            if rv["r"] == "discr":
+                continue
+            if rv["r"] == "use" and rv["o"].get("k") == "int":
+                continue
+            ok = False
+            break
+        if ok:
+            t = blk["term"]
+            k = t["t"]
+            if k == "return":
+                ok = True
+            elif k in ("goto", "drop"):
+                ok = self.pure_tail(t["target"])
+            elif k == "switch":
+                ok = all(self.pure_tail(x) for x in [a[1] for a in t["arms"]] + [t["otherwise"]]
+                         if not (self.blocks[x]["term"]["t"] == "unreachable" and not self.blocks[x]["stmts"]))
+            else:
+                ok = False
+        memo[bb] = ok
+        return ok
 
     def loops(self):
         """natural loops: {head: {"blocks": set, "assigned": set(locals), "deref_assigned": [place]}}"""
